@@ -10,3 +10,6 @@ import RotondaModel.Props.C20
 import RotondaModel.Model.Ingress
 import RotondaModel.Props.C14
 import RotondaModel.Props.C04
+import RotondaModel.Model.Http
+import RotondaModel.Props.C12
+import RotondaModel.Props.C05
